@@ -25,4 +25,16 @@ TEXTS = {
     },
 }
 
+TEXTS['C16'] = {
+    'text': "Lean theorems over every delivery history consistent with one object (any chunking, order, overlap, re-delivery; "
+            "unbounded): emitted writes are consecutive from 0 and carry the object's bytes (in order, each byte once), no "
+            "delivered byte is lost (written or queued), queued data lies strictly above the next offset (prompt release), and "
+            "full delivery of [0,N) implies N written. Tied to download.DeferQueue by differential correspondence (exhaustive "
+            "short histories, seeded download-loop histories with re-chunked retries). The single-request path to a "
+            "non-seekable destination is judged end to end under C02.",
+    'note': COMMON_NOTE + "heapq order is modelled as a list sorted by (offset, length) (equal for data consistent with one object). "
+            "Defect D2 was found by this check and repaired (fix: commit 179a36b).",
+    'technique': "Lean 4 proof (invariant + refinement to the object's prefix) + differential correspondence",
+}
+
 NOT_APPLICABLE = []
